@@ -1,0 +1,140 @@
+//go:build verif
+
+package security
+
+// Contract file: comments only, parsed by /verif/cmd/govc (see /verif/DESIGN.md §2.2).
+// It contains no executable code; without the build tag it is not even compiled.
+
+// ---------------------------------------------------------------- authenticators (C14, C02, C08)
+
+//@ func HttpAuthenticator
+//@ watch MC = closure HttpAuthenticator$1
+//@ ensures calls(MC) == 1 && captured(MC,0,"handler") == handler && result == boxas(ret(MC,0,0), "runtime.AuthenticatorFunc")
+//@ assigns \nothing
+
+//@ func ScopedAuthenticator
+//@ watch MC = closure ScopedAuthenticator$1
+//@ ensures calls(MC) == 1 && captured(MC,0,"handler") == handler && result == boxas(ret(MC,0,0), "runtime.AuthenticatorFunc")
+//@ assigns \nothing
+
+// HttpAuthenticator: the handler sees the request itself or the request of a scoped
+// request; anything else is "not applicable"; the results are the handler's.
+//@ func HttpAuthenticator$1
+//@ watch H = dyn free:handler
+//@ requires handler != nil && nonnilptr(params)
+//@ ensures [C14:http] typeis(params, "*net/http.Request") ==> calls(H) == 1 && arg(H,0,0) == unboxptr(params, "*net/http.Request") && result0 == ret(H,0,0) && result1 == ret(H,0,1) && result2 == ret(H,0,2)
+//@ ensures [C14:scoped] typeis(params, "*github.com/go-openapi/runtime/security.ScopedAuthRequest") && nonnilptr(params) ==> calls(H) == 1 && arg(H,0,0) == old(unboxptr(params, "*ScopedAuthRequest").Request) && result0 == ret(H,0,0) && result1 == ret(H,0,1) && result2 == ret(H,0,2)
+//@ ensures [C14:other] !typeis(params, "*net/http.Request") && !typeis(params, "*github.com/go-openapi/runtime/security.ScopedAuthRequest") ==> calls(H) == 0 && !result0 && result1 == nil && result2 == nil
+
+//@ func ScopedAuthenticator$1
+//@ watch H = dyn free:handler
+//@ requires handler != nil
+//@ ensures [C14:scoped] typeis(params, "*github.com/go-openapi/runtime/security.ScopedAuthRequest") ==> calls(H) == 1 && arg(H,0,0) == unboxptr(params, "*ScopedAuthRequest") && result0 == ret(H,0,0) && result1 == ret(H,0,1) && result2 == ret(H,0,2)
+//@ ensures [C14:other] !typeis(params, "*github.com/go-openapi/runtime/security.ScopedAuthRequest") ==> calls(H) == 0 && !result0 && result1 == nil && result2 == nil
+
+// Basic auth: applicable iff the request carries basic credentials; the callback gets
+// exactly the user and password the request carries; a missing or rejected credential
+// leaves the realm marker on the request context (the WWW-Authenticate challenge of C08).
+//@ func BasicAuthRealm$1
+//@ watch BA = call (*net/http.Request).BasicAuth
+//@ watch AU = dyn free:authenticate
+//@ watch WV = call context.WithValue
+//@ requires r != nil && authenticate != nil
+//@ ensures [C14:probe] calls(BA) == 1 && arg(BA,0,0) == r
+//@ ensures [C14:applies] ret(BA,0,2) ==> calls(AU) == 1 && arg(AU,0,0) == ret(BA,0,0) && arg(AU,0,1) == ret(BA,0,1) && result0 && result1 == ret(AU,0,0) && result2 == ret(AU,0,1)
+//@ ensures [C14:na] !ret(BA,0,2) ==> !result0 && result1 == nil && result2 == nil && calls(AU) == 0
+//@ ensures [C08:challenge] !ret(BA,0,2) || ret(AU,0,1) != nil ==> calls(WV) == 1 && arg(WV,0,1) == boxof(failedBasicAuth) && arg(WV,0,2) == boxof(realm)
+//@ ensures [C08:nochallenge] ret(BA,0,2) && ret(AU,0,1) == nil ==> calls(WV) == 0
+
+//@ func BasicAuthRealmCtx$1
+//@ watch BA = call (*net/http.Request).BasicAuth
+//@ watch AU = dyn free:authenticate
+//@ watch WV = call context.WithValue
+//@ requires r != nil && authenticate != nil
+//@ ensures [C14:probe] calls(BA) == 1 && arg(BA,0,0) == r
+//@ ensures [C14:applies] ret(BA,0,2) ==> calls(AU) == 1 && arg(AU,0,1) == ret(BA,0,0) && arg(AU,0,2) == ret(BA,0,1) && result0 && result1 == ret(AU,0,1) && result2 == ret(AU,0,2)
+//@ ensures [C14:na] !ret(BA,0,2) ==> !result0 && result1 == nil && result2 == nil && calls(AU) == 0
+//@ ensures [C08:challenge] !ret(BA,0,2) || ret(AU,0,2) != nil ==> calls(WV) == 1 && arg(WV,0,1) == boxof(failedBasicAuth) && arg(WV,0,2) == boxof(realm)
+//@ ensures [C08:nochallenge] ret(BA,0,2) && ret(AU,0,2) == nil ==> calls(WV) == 0
+
+//@ func BasicAuthRealm
+//@ watch MC = closure BasicAuthRealm$1
+//@ watch HA = call HttpAuthenticator
+//@ ensures [C08:realm] calls(MC) == 1 && captured(MC,0,"realm") == (realm == "" ? old(DefaultRealmName) : realm) && captured(MC,0,"authenticate") == authenticate && calls(HA) == 1 && arg(HA,0,0) == ret(MC,0,0) && result == ret(HA,0,0)
+
+// API key: the token is read from the configured header or query parameter.
+//@ func APIKeyAuth$1
+//@ watch HG = call (net/http.Header).Get
+//@ requires r != nil
+//@ ensures [C14:header] calls(HG) == 1 && arg(HG,0,0) == old(r.Header) && arg(HG,0,1) == name && result == ret(HG,0,0)
+
+//@ func APIKeyAuth$2
+//@ watch UQ = call (*net/url.URL).Query
+//@ watch QG = call (net/url.Values).Get
+//@ requires r != nil && r.URL != nil
+//@ ensures [C14:query] calls(UQ) == 1 && arg(UQ,0,0) == old(r.URL) && calls(QG) == 1 && arg(QG,0,0) == ret(UQ,0,0) && arg(QG,0,1) == name && result == ret(QG,0,0)
+
+//@ func APIKeyAuth$3
+//@ watch GT = dyn free:getToken
+//@ watch AU = dyn free:authenticate
+//@ requires r != nil && getToken != nil && authenticate != nil
+//@ ensures [C14:probe] calls(GT) == 1 && arg(GT,0,0) == r
+//@ ensures [C14:na] ret(GT,0,0) == "" ==> !result0 && result1 == nil && result2 == nil && calls(AU) == 0
+//@ ensures [C14:applies] ret(GT,0,0) != "" ==> calls(AU) == 1 && arg(AU,0,0) == ret(GT,0,0) && result0 && result1 == ret(AU,0,0) && result2 == ret(AU,0,1)
+
+//@ func APIKeyAuth
+//@ watch TL = call strings.ToLower
+//@ watch C1 = closure APIKeyAuth$1
+//@ watch C2 = closure APIKeyAuth$2
+//@ watch C3 = closure APIKeyAuth$3
+//@ watch HA = call HttpAuthenticator
+//@ panics ok
+//@ ensures [C14:location] calls(TL) == 1 && arg(TL,0,0) == in && (ret(TL,0,0) == "header" || ret(TL,0,0) == "query")
+//@ ensures [C14:header] ret(TL,0,0) == "header" ==> calls(C1) == 1 && captured(C1,0,"name") == name && calls(C3) == 1 && captured(C3,0,"getToken") == ret(C1,0,0)
+//@ ensures [C14:query] ret(TL,0,0) == "query" ==> calls(C2) == 1 && captured(C2,0,"name") == name && calls(C3) == 1 && captured(C3,0,"getToken") == ret(C2,0,0)
+//@ ensures [C14:callback] calls(C3) == 1 && captured(C3,0,"authenticate") == authenticate && calls(HA) == 1 && arg(HA,0,0) == ret(C3,0,0) && result == ret(HA,0,0)
+
+// Bearer: Authorization header, else access_token query parameter, else (form content types only) the form value.
+//@ spec brHdrTok() := strings.HasPrefix(ret(HG,0,0), "Bearer ") ? ret(TP,0,0) : ""
+//@ spec brToken() := brHdrTok() != "" ? brHdrTok() : (ret(QG,0,0) != "" ? ret(QG,0,0) : (calls(FV) == 1 ? ret(FV,0,0) : ""))
+
+//@ func BearerAuth$1
+//@ watch HG = call (net/http.Header).Get
+//@ watch TP = call strings.TrimPrefix
+//@ watch UQ = call (*net/url.URL).Query
+//@ watch QG = call (net/url.Values).Get
+//@ watch CT = call runtime.ContentType
+//@ watch FV = call (*net/http.Request).FormValue
+//@ watch WV = call context.WithValue
+//@ watch AU = dyn free:authenticate
+//@ requires r != nil && r.Request != nil && r.Request.URL != nil && authenticate != nil
+//@ stable now:r.Request.URL
+//@ ensures [C14:header] calls(HG) == 1 && arg(HG,0,1) == "Authorization" && (strings.HasPrefix(ret(HG,0,0), "Bearer ") ==> calls(TP) == 1 && arg(TP,0,0) == ret(HG,0,0) && arg(TP,0,1) == "Bearer ")
+//@ ensures [C14:query] (brHdrTok() == "" <==> calls(QG) == 1) && (calls(QG) == 1 ==> calls(UQ) == 1 && arg(QG,0,0) == ret(UQ,0,0) && arg(QG,0,1) == "access_token")
+//@ ensures [C14:form] calls(FV) <= 1 && (calls(FV) == 1 <==> brHdrTok() == "" && ret(QG,0,0) == "" && (ret(CT,0,0) == "application/x-www-form-urlencoded" || ret(CT,0,0) == "multipart/form-data")) && (calls(FV) == 1 ==> arg(FV,0,1) == "access_token")
+//@ ensures [C14:na] brToken() == "" ==> !result0 && result1 == nil && result2 == nil && calls(AU) == 0
+//@ ensures [C14:applies] brToken() != "" ==> calls(AU) == 1 && arg(AU,0,0) == brToken() && arg(AU,0,1) == old(r.RequiredScopes) && result0 && result1 == ret(AU,0,0) && result2 == ret(AU,0,1)
+//@ ensures [C14:scheme] brToken() != "" ==> calls(WV) == 1 && arg(WV,0,1) == boxof(oauth2SchemeName) && arg(WV,0,2) == boxof(name)
+
+//@ func BearerAuthCtx$1
+//@ watch HG = call (net/http.Header).Get
+//@ watch TP = call strings.TrimPrefix
+//@ watch UQ = call (*net/url.URL).Query
+//@ watch QG = call (net/url.Values).Get
+//@ watch CT = call runtime.ContentType
+//@ watch FV = call (*net/http.Request).FormValue
+//@ watch WV = call context.WithValue
+//@ watch AU = dyn free:authenticate
+//@ requires r != nil && r.Request != nil && r.Request.URL != nil && authenticate != nil
+//@ stable now:r.Request.URL
+//@ ensures [C14:header] calls(HG) == 1 && arg(HG,0,1) == "Authorization" && (strings.HasPrefix(ret(HG,0,0), "Bearer ") ==> calls(TP) == 1 && arg(TP,0,0) == ret(HG,0,0) && arg(TP,0,1) == "Bearer ")
+//@ ensures [C14:query] (brHdrTok() == "" <==> calls(QG) == 1) && (calls(QG) == 1 ==> calls(UQ) == 1 && arg(QG,0,0) == ret(UQ,0,0) && arg(QG,0,1) == "access_token")
+//@ ensures [C14:form] calls(FV) <= 1 && (calls(FV) == 1 <==> brHdrTok() == "" && ret(QG,0,0) == "" && (ret(CT,0,0) == "application/x-www-form-urlencoded" || ret(CT,0,0) == "multipart/form-data")) && (calls(FV) == 1 ==> arg(FV,0,1) == "access_token")
+//@ ensures [C14:na] brToken() == "" ==> !result0 && result1 == nil && result2 == nil && calls(AU) == 0
+//@ ensures [C14:applies] brToken() != "" ==> calls(AU) == 1 && arg(AU,0,1) == brToken() && arg(AU,0,2) == old(r.RequiredScopes) && result0 && result1 == ret(AU,0,1) && result2 == ret(AU,0,2)
+//@ ensures [C14:scheme] brToken() != "" ==> calls(WV) == 1 && arg(WV,0,1) == boxof(oauth2SchemeName) && arg(WV,0,2) == boxof(name) && arg(AU,0,0) == ret(WV,0,0)
+
+//@ func FailedBasicAuthCtx
+//@ watch CV = invoke (context.Context).Value
+//@ requires ctx != nil
+//@ ensures [C08:marker] calls(CV) == 1 && arg(CV,0,0) == boxof(failedBasicAuth) && (typeis(ret(CV,0,0), "string") ==> boxof(result) == ret(CV,0,0)) && (!typeis(ret(CV,0,0), "string") ==> result == "")
